@@ -14,7 +14,7 @@ import re
 
 from facts import AnalysisBroken
 from prog import walk, kids, short, access_kind
-from rules.common import strip_casts, const_of, guard_facts, written_value
+from rules.common import strip_casts, const_of, guard_facts, written_value, all_guards
 from rules.effects import canon, summaries
 
 LEVEL = 'other'
@@ -119,46 +119,38 @@ def check(ctx):
         return None
     hm_nodes = [n for f, n, k in p.field_accesses(POS, '_half_move_counter') if f is do and k in ('write', 'rmw')]
     ctx.floor('C02.R2.clock-writes', len(hm_nodes), 2, 'half-move clock writes in do_move')
-    rel = set()
+    from rules.norm import Norm, cond_value, Unknown
+    nm = Norm(do)
+    kinds = p.enum('engine::PieceKind')
+    events = []
     for n in hm_nodes:
-        for cond, k, termk, blk in do.cfg.guards(n):
-            rel.add(cond['i'])
-
-    def fact(f, cond, truth):
-        c = strip_casts(cond)
-        if c['i'] not in rel:
-            return None
-        return (canon(f, c), truth)
-    sums = summaries(do, hm_event, fact)
-    n_p = 0
-    for ev, facts in sorted(sums, key=str):
-        n_p += 1
-        d = dict(facts)
-        is_castling = d.get('(castling(move)!=NO_CASTLING)')
-        if is_castling is None:
-            raise AnalysisBroken('do_move: clock path not governed by castling(move) != NO_CASTLING: %s' % sorted(d))
-        if is_castling:
-            want_ev, cls = ('inc',), 'castling'
-        else:
-            pawn = [k for k in d if 'PAWN' in k and 'from(move)' in k]
-            nocap = [k for k in d if 'NO_PIECE' in k and 'to(move)' in k]
-            if not pawn:
-                raise AnalysisBroken('do_move: clock path without a pawn test: %s' % sorted(d))
-            pk = pawn[0]
-            is_pawn = d[pk] if '==' in pk else not d[pk]
-            if '!=' in pk:
-                is_pawn = not d[pk]
-            cap = None
-            if nocap:
-                nk = nocap[0]
-                cap = (not d[nk]) if '==' in nk else d[nk]
-            quiet_piece = (not is_pawn) and (cap is False)
-            want_ev = ('inc',) if quiet_piece else ('reset',)
-            cls = 'pawn=%s,capture=%s' % (is_pawn, cap)
-        ctx.ob('C02.R2.clock', cls, tuple(ev) == (want_ev,),
-               'half-move clock on the %s path: written exactly once, as %s (found %s)' % (cls, want_ev[0], [e[0] for e in ev]),
-               site=do.loc(hm_nodes[0]))
-    ctx.floor('C02.R2.clock', n_p, 3, 'clock path classes')
+        st = n
+        ev = None
+        while st is not None and ev is None:
+            ev = hm_event(do, st)
+            st = do.parent(st) if ev is None else st
+        if ev is None:
+            raise AnalysisBroken('do_move: write to the half-move clock at %s not understood' % do.loc(n))
+        if [a for a in do.ancestors(n) if a['k'] in ('ForStmt', 'WhileStmt', 'DoStmt')]:
+            raise AnalysisBroken('do_move: half-move clock written inside a loop')
+        events.append((ev[0], all_guards(do, n), n))
+    MOVER, VICTIM = 'get_piece_kind(_board[from(move)])', 'make_piece_kind(_board[to(move)])'
+    for C in (False, True):
+        for P in (False, True):
+            for X in (False, True):
+                val = {'castling(move)': cas['KING_CASTLING'] if C else cas['NO_CASTLING'],
+                       MOVER: kinds['PAWN'] if P else kinds['KNIGHT'], VICTIM: kinds['ROOK'] if X else kinds['NO_PIECE_KIND'],
+                       '_board[to(move)]': 4 if X else 0}
+                try:
+                    fired = [e for e, gf, n in events if all(cond_value(nm, c, val) == t for c, t in gf)]
+                except Unknown as u:
+                    raise AnalysisBroken('do_move: the half-move clock depends on `%s`, which the rule does not know' % u)
+                want = 'inc' if (C or (not P and not X)) else 'reset'
+                cls = 'castling' if C else 'pawn=%s,capture=%s' % (P, X)
+                if C and (P or X):
+                    continue
+                ctx.ob('C02.R2.clock', cls, fired == [want],
+                       'half-move clock for a %s move: written exactly once, as %s (found %s)' % (cls, want, fired), site=do.loc(hm_nodes[0]))
 
     # ---- R3 castling-right revocation --------------------------------------------------------------------------
     rev = []
